@@ -61,6 +61,20 @@ class SV:
     __hash__ = None
 
 
+class SV0d(SV):
+    """a scalar that came out of numpy.asarray(scalar): a 0-d array, which unlike a python number has shape ()"""
+    __slots__ = ()
+
+
+class F0d(float):
+    """concrete 0-d float array (see SV0d); arithmetic gives plain floats"""
+    __slots__ = ()
+
+
+class I0d(int):
+    __slots__ = ()
+
+
 class SStr:
     """opaque string; only (non-)emptiness and identity are known"""
     def __init__(self, tag, nonempty=True, parts=None):
